@@ -8,6 +8,8 @@ pub mod c07;
 pub mod c08;
 pub mod c09;
 pub mod c10;
+pub mod c11;
+pub mod c12;
 pub mod c13;
 pub mod c14;
 pub mod c15;
@@ -27,6 +29,8 @@ pub fn all() -> Vec<Property> {
         c08::property(),
         c09::property(),
         c10::property(),
+        c11::property(),
+        c12::property(),
         c13::property(),
         c14::property(),
         c15::property(),
